@@ -11,7 +11,7 @@ import (
 var intrinsicNames = map[string]bool{
 	"vU8": true, "vU16": true, "vU32": true, "vU64": true, "vBool": true,
 	"vassume": true, "vcheck": true, "vreach": true, "vpanics": true, "vpure": true,
-	"vmaporder": true, "vnote": true, "vsymtype": true, "vconcrete": true,
+	"vmaporder": true, "vnote": true, "vsymtype": true, "vconcrete": true, "vconcreteInt": true, "vcheckEqInt": true, "vmerge": true,
 }
 
 func isIntrinsicName(fn *ssa.Function) bool {
@@ -352,7 +352,14 @@ func (e *Engine) intrinsic(fn *ssa.Function, args []Value, guard T, site *ssa.Ca
 			}
 			return bv(uint64(n), 64), true
 		}
-		return nil, false // execute the real std SSA
+		// popcount as a sum of bits (the bit-trick multiplication of the real
+		// implementation is solver-hostile); stated as a stub.
+		sum := bv(0, 64)
+		for i := 0; i < 64; i++ {
+			bit := named(T{s: fmt.Sprintf("((_ zero_extend 63) ((_ extract %d %d) %s))", i, i, t.s), w: 64})
+			sum = binop("+", sum, bit, false)
+		}
+		return sum, true
 	case "encoding/json.Marshal", "encoding/json.Unmarshal":
 		panic(engineError{"encoding/json is not modelled"})
 	}
@@ -426,7 +433,7 @@ func (e *Engine) harnessIntrinsic(name string, args []Value, guard T, site *ssa.
 		return e.nondet(lbl(0), 64)
 	case "vBool":
 		return e.nondet(lbl(0), 0)
-	case "vconcrete":
+	case "vconcrete", "vconcreteInt":
 		// vconcrete(x uint32) uint32: case-split x into a concrete value
 		t := args[0].(T)
 		e.site = "vconcrete"
@@ -452,6 +459,17 @@ func (e *Engine) harnessIntrinsic(name string, args []Value, guard T, site *ssa.
 		}
 		e.check(lbl(0), args[1].(T))
 		return nil
+	case "vcheckEqInt":
+		// prove x == k (k concrete) and, once proven, treat x as the concrete k
+		x, k := args[1].(T), args[2].(T)
+		if !k.isC {
+			panic(engineError{"vcheckEqInt needs a concrete expected value"})
+		}
+		e.check(lbl(0), teq(x, k))
+		if !x.isC {
+			e.conc[x.s] = int64(k.c)
+		}
+		return nil
 	case "vreach":
 		e.res.Reached[lbl(0)]++
 		if e.res.Reached[lbl(0)] == 1 && e.wantWitness && !e.inPure() {
@@ -473,6 +491,15 @@ func (e *Engine) harnessIntrinsic(name string, args []Value, guard T, site *ssa.
 	case "vpure":
 		c := args[0].(ClosureV)
 		return e.callPure(c.fn, nil, c.bind, guard)
+	case "vmerge":
+		// run library code merged (if-converted); a reachable panic is a Go panic, not a spec error
+		c := args[0].(ClosureV)
+		if e.accOn {
+			return e.callPure(c.fn, nil, c.bind, guard)
+		}
+		e.accLib = true
+		defer func() { e.accLib = false }()
+		return e.callPure(c.fn, nil, c.bind, guard)
 	case "vpanics":
 		if e.inPure() {
 			panic(engineError{"vpanics inside guarded code"})
@@ -482,8 +509,9 @@ func (e *Engine) harnessIntrinsic(name string, args []Value, guard T, site *ssa.
 		res := func() (r bool) {
 			defer func() {
 				if x := recover(); x != nil {
-					if _, ok := x.(goPanic); ok {
+					if gp, ok := x.(goPanic); ok {
 						r = true
+						e.lastPanic = gp.msg
 						e.callDepth = depth
 						e.pureDepth = 0
 						return
@@ -569,6 +597,9 @@ func (e *Engine) check(label string, c T) {
 
 // recordViolation reads the current model (solver must be in sat state).
 func (e *Engine) recordViolation(label, kind, detail string) {
+	if detail == "" && e.lastPanic != "" {
+		detail = "last caught panic: " + e.lastPanic
+	}
 	v := Violation{Harness: e.harness, Label: label, Kind: kind, Detail: detail, Prefix: append([]int64{}, e.taken...)}
 	for _, n := range e.nondets {
 		val, _ := e.s.value(n.Name)
